@@ -11,7 +11,7 @@ LEVEL = "exploration"
 RULE = (
     "Hypothesis draws free profiles with independent Kx != Ky != Kz and oblique/turning winds (also closures and constants), "
     "non-square grids nx != ny with dx != dy, mode counts below/at/above/default, 1..2 levels, a source, an on-grid tower, "
-    "footprint or dispersion (measurement point at the origin or on a grid node), and scale factors s,a = 2^k (|k| up to 27, and up to 80 for lengths / 100 for velocities) or arbitrary in [1e-7,1e7]. Oracles: (1) x-mirror and "
+    "footprint or dispersion (measurement point at the origin or on a grid node), and scale factors s,a = 2^k (|k| up to 27, and up to 80 for lengths / 100 for velocities) or arbitrary in [1e-7,1e7]; in a third of the cases the two similarity relations are also checked in single precision with power-of-two factors (which commute with storage rounding, so the double-precision tolerance applies). Oracles: (1) x-mirror and "
     "(2) y-mirror of the problem (source mirrored about cell 0 on the periodic domain, that wind component negated, tower mirrored) "
     "give mirrored fields - compared on the Fourier components strictly inside the retained band |k| < min(modes, N)/2 (the property "
     "excepts Nyquist components); (3) transposed problem (source.T, (u,v),(Kx,Ky),(xmax,ymax),(nlx,nly), tower swapped) gives "
@@ -52,6 +52,11 @@ def _case(draw):
     huge_a = st.integers(28, 100).flatmap(lambda k: st.sampled_from([float(2.0**k), float(2.0**-k)]))
     case["s"] = draw(st.one_of(pw, wide, huge_s, gen.logfl(0.01, 100.0), gen.logfl(1e-7, 1e7)))
     case["a"] = draw(st.one_of(pw, wide, huge_a, gen.logfl(0.01, 100.0), gen.logfl(1e-7, 1e7)))
+    # single precision: power-of-two factors commute with every rounding, storage rounding included, so the two
+    # relations hold as tightly as in double precision (velocity factors bounded so that conc/a stays a float32)
+    if draw(st.integers(0, 2)) == 0:
+        case["single"] = {"s": draw(st.integers(1, 80).flatmap(lambda k: st.sampled_from([float(2.0**k), float(2.0**-k)]))),
+                          "a": draw(st.integers(1, 60).flatmap(lambda k: st.sampled_from([float(2.0**k), float(2.0**-k)])))}
     case["recentre"] = draw(st.booleans())  # dispersion runs re-centred on the (on-grid) tower
     return case
 
@@ -85,13 +90,13 @@ def check_case(case):
     out.label(f"prof={case['prof']['kind']}", "footprint" if fpm else "dispersion", f"halo={case['halo']['kind']}",
               "s=pow2" if np.log2(case["s"]).is_integer() else "s=arbitrary")
 
-    def run(q, prof_, dom_, modes_, tower, halo, z_=z, bg_=bg, recentre=False):
+    def run(q, prof_, dom_, modes_, tower, halo, z_=z, bg_=bg, recentre=False, precision="double"):
         ddx, ddy = dom_[0] / q.shape[1], dom_[1] / q.shape[0]
         # (re-centred dispersion output is registered relative to the tower: only the similarity relations, which
         #  keep the geometry, are checked in that mode; mirrors and the axis swap use the un-shifted field)
         mp = (tower[0] * ddx, tower[1] * ddy) if (fpm or recentre) else (0.0, 0.0)
         _, c, f = sut.S(q, z_, prof_, dom_, lv, modes=modes_, meas_pt=mp, srf_bg_conc=bg_, footprint=fpm,
-                        halo=halo, precision="double")
+                        halo=halo, precision=precision)
         return sut.as3d(c), sut.as3d(f)
 
     fs0, cs0 = (0.0, 0.0) if fpm else tol.natural_scales(q0, z, prof, bg)  # floors for dispersion fields only
@@ -180,6 +185,29 @@ def check_case(case):
     err = tol.maxabs(ch - a_ * ca)
     if not err <= rel * max(tol.maxabs(ch), abs(bg), cs0):
         out.bad(f"velocity similarity: conc is not divided by {a_} (difference {err:.3e})")
+
+    # ---- the same two relations in single precision, power-of-two factors only
+    if case.get("single") and same_pad is not None:
+        s2, a2 = case["single"]["s"], case["single"]["a"]
+        out.label("single-precision-similarity")
+        c1, f1 = run(q0, prof, dom, mh, (im, jm), hv, recentre=rc, precision="single")
+        c2, f2 = run(q0, (u, v, s2 * Kx, s2 * Ky, s2 * Kz), (dom[0] * s2, dom[1] * s2), mh, (im, jm),
+                     None if hv is None else hv * s2, z_=z * s2, recentre=rc, precision="single")
+        if pads(dom, hv) == pads((dom[0] * s2, dom[1] * s2), None if hv is None else hv * s2):
+            for name, a, b in (("conc", c1, c2), ("flux", f1, f2)):
+                scale = max(tol.maxabs(a), abs(bg), cs0 if name == "conc" else fs0)
+                err = tol.maxabs(a.astype(float) - b.astype(float))
+                if not err <= rel * scale:
+                    out.bad(f"length similarity, single precision: {name} changes by {err:.3e} (> {rel * scale:.3e}) when all "
+                            f"lengths and K are multiplied by {s2}")
+        c3, f3 = run(q0, (a2 * u, a2 * v, a2 * Kx, a2 * Ky, a2 * Kz), dom, mh, (im, jm), hv, bg_=bg / a2, recentre=rc,
+                     precision="single")
+        err = tol.maxabs(f1.astype(float) - f3.astype(float))
+        if not err <= rel * max(tol.maxabs(f1), fs0):
+            out.bad(f"velocity similarity, single precision: flux changes by {err:.3e} when winds and K are multiplied by {a2}")
+        err = tol.maxabs(c1.astype(float) - a2 * c3.astype(float))
+        if not err <= rel * max(tol.maxabs(c1), abs(bg), cs0):
+            out.bad(f"velocity similarity, single precision: conc is not divided by {a2} (difference {err:.3e})")
 
     aniso = tol.maxabs(Kx - Ky) > 0
     oblique = u[-1] * v[-1] != 0
